@@ -14,6 +14,7 @@ def check(ctx, prog):
     model.rule_trigger_join(ctx, prog)
     engine.rule_flags_writers(ctx, prog, thorough=ctx.tier == "thorough")
     engine.rule_wakeup(ctx, prog)
+    model.rule_constants(ctx, prog, want=("events", "status"))
     optimize.rule_reset(ctx, prog)  # a restart leaves every constraint queued
     engine.rule_stack_writers(ctx, prog, thorough=ctx.tier == "thorough")  # incl. the initial queue of a new solver
     branching.check_value_heuristics(ctx, prog)  # scope: R-BRANCH-EVENTS only
